@@ -1481,6 +1481,45 @@ def stat_probe(program, log):
         rewrite(f.node.body, f)
 
 
+def typing_noops(program, log):
+    """`cast(T, x)` (typing.cast) is x; `isinstance(x, GeneratorType)`
+    (types.GeneratorType) is `inspect.isgenerator(x)` - its definition."""
+    for f in program.all_functions():
+        imps = f.module.imports
+
+        def resolves(n, mod, name):
+            d = dotted(n)
+            if d is None:
+                return False
+            if d == f'{mod}.{name}' and imps.get(mod) == ('module', mod):
+                return True
+            return imps.get(d) == ('name', mod, name)
+
+        class R(ast.NodeTransformer):
+            hit = 0
+
+            def visit_Call(self, n):
+                self.generic_visit(n)
+                if resolves(n.func, 'typing', 'cast') and len(n.args) == 2 \
+                        and not n.keywords:
+                    R.hit += 1
+                    return n.args[1]
+                if dotted(n.func) == 'isinstance' and len(n.args) == 2 \
+                        and resolves(n.args[1], 'types', 'GeneratorType'):
+                    R.hit += 1
+                    return ast.copy_location(ast.Call(
+                        ast.Attribute(ast.Name('inspect', ast.Load()),
+                                      'isgenerator', ast.Load()),
+                        [n.args[0]], []), n)
+                return n
+        R.hit = 0
+        R().visit(f.node)
+        if R.hit:
+            ast.fix_missing_locations(f.node)
+            log.append(f'{f.where}: typing.cast / GeneratorType test read as '
+                       'the value / inspect.isgenerator')
+
+
 def rotate_idiom(program, log):
     """`q.append(q.popleft())` on a deque known to be non-empty (an earlier
     statement of the same block returns when it is empty / has at most one
@@ -2022,7 +2061,7 @@ def run(program):
     program.records = {}
     program.cow = set()
     for step in (explicit_properties, walrus_out, inline_simple_decorators,
-                 sentinel_lookups, setdefault_fresh, mirror_locals,
+                 typing_noops, sentinel_lookups, setdefault_fresh, mirror_locals,
                  rotate_idiom, drain_loops, stat_probe, split_parallel_assign,
                  inline_aliases, context_managers_to_try, rpartition_keys,
                  slices_of_islice,
